@@ -164,7 +164,7 @@ class EnumProperty(PropertyProtocol):
     def convert_value(self, value: Any) -> Value | PropertyError | None:
         if value is None or isinstance(value, Value):
             return value
-        if isinstance(value, self.value_type):
+        if isinstance(value, self.value_type) and not isinstance(value, bool):
             inverse_values = {v: k for k, v in self.values.items()}
             try:
                 return Value(python_code=f"{self.class_info.name}.{inverse_values[value]}", raw_value=value)
